@@ -796,6 +796,34 @@ async fn main(plan: Plan) -> Outcome {
         // Let resets be noticed before the next query.
         world::sleep_ns(200 * MS).await;
     }
+    // The control connection's own pager (system tables, read over one fixed connection): a
+    // connection that dies while a LATER page of system.peers is being fetched must not
+    // leave a silently truncated peer list behind - a refresh that reports success has
+    // published every node.
+    if plan.system_page_rows > 0 && plan.nodes >= 3 && tape::chance("c07:control_pager_reset", 1, 3) {
+        world::world().cluster.reset_on_peers_page = Some(tape::choose("c07:control_pager_reset_page", 2) as u32);
+        let r = tokio::time::timeout(Duration::from_secs(180), session.refresh_metadata()).await;
+        let fired = world::world().cluster.reset_on_peers_page.is_none();
+        world::world().cluster.reset_on_peers_page = None;
+        out.count("control_pager_reset_phases", fired as u64);
+        match r {
+            Err(_) => out.violation("c07.hang", "refresh_metadata() did not return within 180 virtual s after the control connection was reset in the middle of paging system.peers".into()),
+            Ok(Err(_)) => {}
+            Ok(Ok(())) => {
+                let n = session.get_cluster_state().get_nodes_info().len();
+                if n != plan.nodes {
+                    out.violation(
+                        "c07.control_pager",
+                        format!(
+                            "the control connection was reset while a later page of system.peers (paged by {} rows) was being fetched; refresh_metadata() returned Ok but the published topology has {n} nodes, the cluster has {}",
+                            plan.system_page_rows, plan.nodes
+                        ),
+                    );
+                }
+            }
+        }
+        world::sleep_ns(5 * SEC).await;
+    }
     out.nontrivial = pages_total > plan.queries as u64;
     out.count("page_requests", pages_total);
     out.count("manually_paged_queries", manual_total);
